@@ -330,6 +330,13 @@ def fresh_generation_rule(repo: Repo, rep: Report, rid: str) -> None:
         decs = [norm(d) for d in fi.node.decorator_list]
         memo = [d for d in decs if "cache" in d.lower() or "memo" in d.lower()]
         stores = [x for x in walk_body(fi.node.body) if isinstance(x, (ast.Global, ast.Nonlocal))]
+        from .c15 import param_mutations
+
+        acc = param_mutations(fi.node, fi.params)
+        rep.check(not acc, rid, f"{fi.key}:no-accumulator", "no parameter is used as an accumulator across calls",
+                  f"{q} mutates its parameter '{acc[0][1] if acc else ''}' ('{short(acc[0][0], 50) if acc else ''}'): a caller that passes the same object to several calls "
+                  "(one set of defined names for all cstruct objects of a file) makes the stub of one cstruct object depend on the objects processed before it",
+                  fi.loc(acc[0][0]) if acc else fi.loc())
         rep.check(not memo and not stores, rid, f"{fi.key}:not-memoised", "generated afresh on every call",
                   f"{q} is memoised ({memo or 'module-level state'}): after a structure is extended in place the stub generated next is the cached text of the "
                   "old definition", fi.loc())
@@ -365,6 +372,49 @@ def rename_once_rule(repo: Repo, rep: Report, rid: str) -> None:
     rep.floor(rid, "rename sites in the parser", n, 1)
 
 
+CONTEXT_PARAMS = ("cs_prefix", "module_prefix", "prefix")
+
+
+def context_forwarding_rule(repo: Repo, rep: Report, rid: str) -> None:
+    rep.rule(rid, "naming context is forwarded: when one stub generator calls another (or itself) that also takes cs_prefix / module_prefix / prefix, "
+                  "it passes its own value on - a nested type is named in the same scope as the type that contains it")
+    mod = repo.module("tools/stubgen.py")
+    gens = {q: f for q, f in mod.functions.items() if q.startswith("generate_") and "." not in q}
+    n = 0
+    for q, fi in gens.items():
+        mine = [p_ for p_ in fi.params if p_ in CONTEXT_PARAMS]
+        if not mine:
+            continue
+        for c in walk_body(fi.node.body):
+            if not (isinstance(c, ast.Call) and isinstance(c.func, ast.Name) and c.func.id in gens):
+                continue
+            callee = gens[c.func.id]
+            passed = {}
+            for i_, a_ in enumerate(c.args):
+                if i_ < len(callee.params):
+                    passed[callee.params[i_]] = a_
+            for k_ in c.keywords:
+                if k_.arg:
+                    passed[k_.arg] = k_.value
+            for p_ in mine:
+                if p_ not in callee.params:
+                    continue
+                n += 1
+                arg = passed.get(p_)
+                ok = arg is not None and any(isinstance(x, ast.Name) and x.id == p_ for x in ast.walk(arg))
+                # a generator may deliberately blank cs_prefix for an inlined type ('' if inlined else cs_prefix): the parameter still occurs in the argument
+                rep.check(ok, rid, f"{fi.key}:{c.func.id}({p_})", f"{p_} forwarded",
+                          f"{q} calls {c.func.id} without forwarding its '{p_}' ({short(c, 70)}): nested hints lose their scope, e.g. in a file stub "
+                          "(module_prefix='__cs__.') 'Array[Pointer[...]]' names Pointer, which the stub neither imports nor declares", fi.loc(c))
+    rep.floor(rid, "generator-to-generator context parameters", n, 4)
+    st = repo.func("tools/stubgen.py", "generate_structure_stub")
+    loops = [w for w in walk_body(st.node.body) if isinstance(w, ast.While) and "issubclass" in norm(w.test) and "BaseArray" in norm(w.test)
+             and any(isinstance(a_, ast.Assign) and norm(a_.value).endswith(".type") for a_ in w.body)]
+    rep.check(len(loops) == 1, rid, f"{st.key}:array-levels", "every array level is stripped (a loop) before deciding whether the element is an inline structure",
+              "generate_structure_stub strips at most one array level when looking for an inline element structure: for 'struct {...} cells[8][8]' no inline "
+              "class is emitted and the hint names '__anonymous_0__', which the cstruct object does not provide", st.loc())
+
+
 def run(repo: Repo, rep: Report, tier: str) -> None:
     template_rule(repo, rep, "C20.R1")
     sanitise_rule(repo, rep, "C20.R2")
@@ -378,4 +428,6 @@ def run(repo: Repo, rep: Report, tier: str) -> None:
     from .memo import memo_rule
 
     memo_rule(repo, rep, "C20.R10")
+    context_forwarding_rule(repo, rep, "C20.R11")
+
 
